@@ -17,7 +17,8 @@ FAMILIES = [
     ("vector_toy_pm1", (1, -1), ((1, -1), (1, -1), (0, -1)), {"spins": [-1, 1]}, {"BC": [(1, 1), (0, -1)], "BD": [(1, 1)], "CD": [(1, 1)]}),
     ("fermion_weak", (H, 1), ((H, 1), (0, -1), (1, -1)), {"p_break": True}, {"BC": [(H, -1), (1.5, 1), (1.5, -1)], "BD": [(H, 1), (1.5, -1)], "CD": [(1, -1), (0, -1), (1, 1)]}),
     ("fermion_pair", (0, -1), ((H, 1), (H, -1), (0, -1)), {}, {"BC": [(1, -1), (0, -1), (1, 1)], "BD": [(H, 1), (H, -1), (1.5, 1)], "CD": [(H, -1), (1.5, -1)]}),
-    ("photon_like", (1, -1), ((0, -1), (0, -1), (1, -1)), {"final_spins": {"D": [-1, 1]}}, {"BC": [(1, -1), (0, 1), (2, 1)], "BD": [(1, 1), (1, -1)], "CD": [(1, 1), (0, -1)]}),
+    # a restricted helicity list is only convention independent for a massless particle: D is a photon here
+    ("photon_like", (1, -1), ((0, -1), (0, -1), (1, -1)), {"final_spins": {"D": [-1, 1]}, "masses": {"B": 2.00698, "C": 2.01028, "D": 0.0}}, {"BC": [(1, -1), (0, 1), (2, 1)], "BD": [(1, 1), (1, -1)], "CD": [(1, 1), (0, -1)]}),
     ("spin2_top", (2, 1), ((1, -1), (0, -1), (0, -1)), {}, {"BC": [(1, 1), (1, -1), (2, -1)], "BD": [(1, 1), (2, 1)], "CD": [(0, 1), (2, 1), (1, -1)]}),
 ]
 
@@ -50,7 +51,7 @@ def member(fam, choice, data=None, second=None, masses=None):
             chains.append(slot)
     if second and second[0] in res:
         res[second[0]].append(_res(second[0], 1, cands[second[0]][second[1]]))
-    cfg = zoo.card3(jA=top[0], pA=top[1], fin=fin, res=res, chains=tuple(chains), data=data, masses=masses,
+    cfg = zoo.card3(jA=top[0], pA=top[1], fin=fin, res=res, chains=tuple(chains), data=data, masses=masses or opts.get("masses"),
                     spins_top=opts.get("spins"))
     for f, sp in (opts.get("final_spins") or {}).items():
         cfg["particle"]["$finals"][f]["spins"] = list(sp)
